@@ -160,6 +160,24 @@ pub fn gen_filter(rng: &mut Rng, depth: u32) -> F {
     }
 }
 
+/// "Arbitrarily nested": a filter under a tower of and / or / not wrappers (single-operand and / or, an and with a
+/// match-all sibling, an or with an empty-or sibling, not), 5 to 200 levels high, with heights around 32 and 64.
+pub fn wrap_deep(rng: &mut Rng, inner: F) -> F {
+    let levels = *rng.pick(&[5u32, 16, 31, 32, 33, 34, 40, 63, 64, 65, 100, 200]);
+    let mut f = inner;
+    for _ in 0..levels {
+        f = match rng.below(8) {
+            0..=2 => F::Not(Some(Box::new(f))),
+            3 => F::And(vec![f]),
+            4 => F::Or(vec![f]),
+            5 => F::And(vec![f, F::NoFilter]),
+            6 => F::Or(vec![F::Or(vec![]), f]),
+            _ => F::Not(Some(Box::new(F::Not(Some(Box::new(f)))))),
+        };
+    }
+    f
+}
+
 #[derive(Clone, Debug, PartialEq, Serialize, Deserialize)]
 pub enum Step {
     Op(OpK),
@@ -247,7 +265,9 @@ pub fn gen_plan(seed: u64, run: u64, tier: &str) -> Plan {
             w += 1;
             OpK::BulkLoad { docs: vec![(id, bits(&gen_vector(&mut rng, cfg.dim, w)), gen_meta11(&mut rng, w))] }
         } else if r < 90 && cfg.tiered {
-            steps.push(Step::DeleteWhere(gen_filter(&mut rng, 2)));
+            let f = gen_filter(&mut rng, 2);
+            let f = if rng.chance(1, 6) { wrap_deep(&mut rng, f) } else { f };
+            steps.push(Step::DeleteWhere(f));
             continue;
         } else {
             let mut fs: Vec<F> = (0..6)
@@ -256,6 +276,13 @@ pub fn gen_plan(seed: u64, run: u64, tier: &str) -> Plan {
                     gen_filter(&mut rng, d)
                 })
                 .collect();
+            // towers of wrappers over a leaf or a small tree
+            if rng.chance(1, 3) {
+                for _ in 0..2 {
+                    let inner = if rng.chance(1, 2) { cat[rng.below(cat.len() as u64) as usize].clone() } else { gen_filter(&mut rng, 2) };
+                    fs.push(wrap_deep(&mut rng, inner));
+                }
+            }
             // a rotating window of the exhaustive leaf catalogue
             let off = (run as usize * 7 + i * 13) % cat.len();
             for j in 0..14 {
